@@ -320,7 +320,7 @@ limit, stdout decodes into the response - and, for get-plugin-metadata, the meta
 validates and is named like the plugin. -/
 theorem run_ok_iff (cfg : ExecCfg) (i : Input) (w : WaitOut) :
     (decide_ cfg i w).1 = .ok ↔
-      (execFailed cfg i w = false ∧ decodes i.stdout = true ∧
+      (execFailed cfg i w = false ∧ outDecodes i = true ∧
        (i.command = .getMetadata → validateErr (seenMeta i) = none ∧ (seenMeta i).name = i.pluginName)) := by
   unfold decide_ execFailed
   by_cases hf : (!i.executable || w.killed || i.exitCode != 0 || w.delayExpired ||
@@ -343,7 +343,7 @@ theorem run_ok_iff (cfg : ExecCfg) (i : Input) (w : WaitOut) :
       over cfg.stdoutLimit (effOutSize i) || over cfg.stderrLimit (effErrSize i)) = false := by
       simpa using hf
     simp only [hf', Bool.false_eq_true, if_false, true_and]
-    by_cases hd : decodes i.stdout = true
+    by_cases hd : outDecodes i = true
     · simp only [hd, Bool.not_true, Bool.false_eq_true, if_false, true_and]
       by_cases hc : i.command = .getMetadata
       · simp only [hc, beq_self_eq_true, if_true, forall_const]
@@ -355,7 +355,7 @@ theorem run_ok_iff (cfg : ExecCfg) (i : Input) (w : WaitOut) :
           · simp [hn]
       · have : (i.command == Command.getMetadata) = false := by simpa using hc
         simp [this, hc]
-    · have : decodes i.stdout = false := by simpa using hd
+    · have : outDecodes i = false := by simpa using hd
       simp [this]
 
 /-- **C17 (ii), `error_mapping`.** When `cmd.Run()` fails: no stderr (or a file that cannot be
@@ -365,15 +365,18 @@ metadata comes back as the plugin's own error with exactly its code, anything el
 error - in this order, and stdout plays no role. -/
 theorem error_mapping (cfg : ExecCfg) (i : Input) (w : WaitOut) (hf : execFailed cfg i w = true) :
     decide_ cfg i w =
-      if !i.executable || (!over cfg.stderrLimit (effErrSize i) && i.stderr == .empty) then (.executableFileError, "")
-      else if !over cfg.stderrLimit (effErrSize i) && i.stderr == .errorObject && errorObjectComplete i
+      if !i.executable || (!errCut cfg i && i.stderr == .empty) then (.executableFileError, "")
+      else if !errCut cfg i && i.stderr == .errorObject && errorObjectComplete i
         then (.pluginError, i.errCode)
       else (.malformedPluginError, "") := by
   unfold execFailed at hf
   unfold decide_
   simp only [hf, if_true]
-  cases he : i.executable <;> cases ho : over cfg.stderrLimit (effErrSize i) <;>
-    cases hs : i.stderr <;> cases hc : errorObjectComplete i <;> simp
+  rcases Bool.eq_false_or_eq_true i.executable with he | he <;>
+    rcases Bool.eq_false_or_eq_true (errCut cfg i) with ho | ho <;>
+    rcases Bool.eq_false_or_eq_true (errorObjectComplete i) with hc | hc <;>
+    by_cases h1 : i.stderr = .empty <;> by_cases h2 : i.stderr = .errorObject <;> simp_all
+  all_goals (cases hs : i.stderr <;> simp_all)
 
 /-- a failing process never yields success, whatever it printed on stdout -/
 theorem failed_never_ok (cfg : ExecCfg) (i : Input) (w : WaitOut) (hf : execFailed cfg i w = true) :
@@ -400,7 +403,7 @@ theorem both_streams_capped (cfg : ExecCfg) (i : Input)
     simp only [Bool.or_eq_false_iff] at h1
     have h2 := h1.1.2
     simp only [ho, over, decide_eq_false_iff_not] at h2
-    omega
+    split <;> omega
   | pluginError =>
     simp only []
     by_cases hf : execFailed cfg i w = true
@@ -411,8 +414,13 @@ theorem both_streams_capped (cfg : ExecCfg) (i : Input)
         · rename_i h3
           simp only [Bool.and_eq_true, Bool.not_eq_true'] at h3
           have h4 := h3.1.1
-          simp only [he, over, decide_eq_false_iff_not] at h4
-          omega
+          simp only [errCut, he, over, Bool.and_eq_false_iff, decide_eq_false_iff_not, Bool.not_eq_false'] at h4
+          split
+          · omega
+          · rename_i hb
+            rcases h4 with h4 | h4
+            · omega
+            · exact absurd h4 hb
         · simp at hr
     · exfalso
       have hf' : execFailed cfg i w = false := by simpa using hf
@@ -522,15 +530,19 @@ theorem call_holds (cfg : ExecCfg) (d : Nat) (hctx : cfg.ctxBound = true)
     | false =>
       simp only [Bool.false_or]
       rw [error_mapping cfg i w (hfail hx)]
-      unfold printedStructured
+      unfold printedStructured errCut
       simp only [he, over]
       by_cases hsz : effErrSize i ≤ specCap
       · have hlt : ¬ specCap < effErrSize i := by omega
-        cases hxe : i.executable <;> cases hs : i.stderr <;> cases hcpl : errorObjectComplete i <;>
-          simp [hsz, hlt]
+        rcases Bool.eq_false_or_eq_true i.executable with hxe | hxe <;>
+          rcases Bool.eq_false_or_eq_true (errorObjectComplete i) with hcpl | hcpl <;>
+          rcases Bool.eq_false_or_eq_true i.stderrBlank with hb | hb <;>
+          by_cases h1 : i.stderr = .empty <;> by_cases h2 : i.stderr = .errorObject <;> simp_all
       · have hlt : specCap < effErrSize i := by omega
-        cases hxe : i.executable <;> cases hs : i.stderr <;> cases hcpl : errorObjectComplete i <;>
-          simp [hsz, hlt]
+        rcases Bool.eq_false_or_eq_true i.executable with hxe | hxe <;>
+          rcases Bool.eq_false_or_eq_true (errorObjectComplete i) with hcpl | hcpl <;>
+          rcases Bool.eq_false_or_eq_true i.stderrBlank with hb | hb <;>
+          by_cases h1 : i.stderr = .empty <;> by_cases h2 : i.stderr = .errorObject <;> simp_all
   · -- over-cap reply never accepted
     by_cases hov : specCap < effOutSize i
     · have hf : execFailed cfg i w = true := by
@@ -606,7 +618,7 @@ theorem call_clauses_hold (i : Input) : (callClauses i (callObsOf (runCall codeC
 
 /-- a successful call had a cleanly exited process and a reply of the expected shape -/
 theorem ok_only_if_valid (i : Input) (hk : i.kind = .call) (h : (run i).result = .ok) :
-    exitedOk i = true ∧ decodes i.stdout = true := by
+    exitedOk i = true ∧ outDecodes i = true := by
   have := call_clauses_hold i
   have hr : (runCall codeCfg i).result = .ok := by simpa [run, runWith, hk] using h
   simp [callClauses, callObsOf, Clauses.holds, hr] at this
@@ -650,7 +662,8 @@ def okCall : Input :=
   { kind := .call, command := .getMetadata, pluginName := "foo", executable := true, exitCode := 0,
     stdout := .reply, stdoutSize := 0,
     metadata := ⟨"foo", "d", "1.0.0", "u", ["SIGNATURE_GENERATOR.RAW"], ["1.0"]⟩,
-    stderr := .empty, stderrSize := 0, errCode := "", errMessage := false, errMetadata := false,
+    stderr := .empty, stderrSize := 0, errCode := "", errMessage := false, errMetadata := false, stdoutBlank := false, stdoutGarbage := false,
+    stderrBlank := false, ignoresPipe := false,
     exitAt := some 0, pipesAt := some 0, ctxEnd := some 1000, cancel := false, probes := [500],
     limit := 0, steps := [], calls := [] }
 
@@ -701,7 +714,8 @@ executable with a 1 s deadline -/
 def hangingCall : Call :=
   { command := .describeKey, pluginName := "foo", executable := true, exitCode := 0, stdout := .reply,
     stdoutSize := 0, metadata := okCall.metadata, stderr := .empty, stderrSize := 0, errCode := "",
-    errMessage := false, errMetadata := false, exitAt := some 10500, pipesAt := some 0, ctxEnd := none,
+    errMessage := false, errMetadata := false, stdoutBlank := false, stdoutGarbage := false,
+    stderrBlank := false, ignoresPipe := false, exitAt := some 10500, pipesAt := some 0, ctxEnd := none,
     cancel := false, probes := [10000, 13000], startAt := 0, exe := 0 }
 
 def shortCall : Call :=
@@ -733,19 +747,40 @@ def longError : Input :=
 
 example : (run longError).result = .pluginError ∧ (run longError).code = "TIMEOUT" := by decide
 
+/-- output that exceeds the cap only by white space after the complete reply (and a last byte of
+garbage), from a plugin that ignores SIGPIPE and exits 0: the call fails, it is not cut off silently … -/
+def runawayReply : Input :=
+  { okCall with command := .describeKey, stdoutSize := 67108865, stdoutBlank := true, stdoutGarbage := true, ignoresPipe := true }
+
+example : (run runawayReply).result = .executableFileError := by decide
+
+/-- … `Holds` is false of accepting it … -/
+example : Holds runawayReply { (run runawayReply) with result := .ok } = false := by decide
+
+/-- … while the same reply padded with white space to exactly the cap is a valid document -/
+example : (run { runawayReply with stdoutSize := 67108864, stdoutGarbage := false }).result = .ok := by decide
+
+/-- stderr is different: `Output` hands `run` the first 64 MiB together with the copy error, so an error
+object followed by more white space than the cap is still the plugin's own error (also at exit 0) -/
+def runawayStderr : Input :=
+  { okCall with
+    stderr := .errorObject, errCode := "ERROR", stderrSize := 67108865, stderrBlank := true, ignoresPipe := true }
+
+example : (run runawayStderr).result = .pluginError := by decide
+
 /-! ### tie to the translated source (docs/TIE_BRIEF.md) -/
 
 /-- the model's `decide_` is the composition of the two decision functions the source is tied to -/
 theorem decide_eq_decisions (cfg : ExecCfg) (i : Input) (w : WaitOut) :
     decide_ cfg i w =
-      (let r := runDecision (execFailed cfg i w) (seenStderrEmpty cfg i) (seenStderrCode cfg i) (decodes i.stdout)
+      (let r := runDecision (execFailed cfg i w) (seenStderrEmpty cfg i) (seenStderrCode cfg i) (outDecodes i)
        if r.1 == .ok && i.command == .getMetadata then metadataDecision (seenMeta i) i.pluginName else r) := by
   cases hf : execFailed cfg i w with
   | true =>
     rw [error_mapping cfg i w hf]
     simp only [runDecision, seenStderrEmpty, seenStderrCode, if_true]
     rcases Bool.eq_false_or_eq_true i.executable with he | he <;>
-      rcases Bool.eq_false_or_eq_true (over cfg.stderrLimit (effErrSize i)) with ho | ho <;>
+      rcases Bool.eq_false_or_eq_true (errCut cfg i) with ho | ho <;>
       rcases Bool.eq_false_or_eq_true (errorObjectComplete i) with hcpl | hcpl <;>
       by_cases h1 : i.stderr = .empty <;> by_cases h2 : i.stderr = .errorObject <;>
       simp_all
@@ -753,7 +788,7 @@ theorem decide_eq_decisions (cfg : ExecCfg) (i : Input) (w : WaitOut) :
     unfold decide_
     unfold execFailed at hf
     simp only [hf, Bool.false_eq_true, if_false, runDecision, metadataDecision]
-    cases hd : decodes i.stdout <;> cases hc : (i.command == Command.getMetadata) <;> simp
+    cases hd : outDecodes i <;> cases hc : (i.command == Command.getMetadata) <;> simp
 
 namespace Tie
 open NotationModel.Src
